@@ -264,6 +264,10 @@ pub fn random_input(rng: &mut Rng, k: &KindInst) -> String {
     if k.slope_input {
         return rng.range(0, 2).to_string();
     }
+    if k.kind == "debounce" && !k.pivots.is_empty() && rng.chance(2, 3) {
+        // (runs of the predicate: the counter is mostly NOT zero when something else happens to the filter)
+        return k.pivots[0].to_string();
+    }
     if !k.pivots.is_empty() && rng.chance(4, 5) {
         let p = *rng.pick(&k.pivots);
         return (p + rng.range(-1, 1)).to_string();
@@ -1827,6 +1831,26 @@ pub fn gen_copy(rng: &mut Rng, tier: &Tier) -> Vec<Case> {
                 }
             }
             cases.push(c);
+        }
+        // zeros of either sign in the window of an order-based filter at the moment of the copy: which of two samples
+        // that compare equal the filter goes on to report is part of its state too
+        if *kind == "max" {
+            for _ in 0..tier.n(30, 300) {
+                let k2 = *rng.pick(&["max", "min", "bounds"]);
+                let n = rng.range(2, 5) as usize;
+                let mut c = vec![format!("new 1 {} N={} T=fz", k2, n)];
+                for _ in 0..rng.range(1, n as i64 + 1) {
+                    c.push(format!("f 1 {}", rng.pick(&["0", "-0", "0", "-0", "-1", "1"])));
+                }
+                c.push((if rng.chance(2, 3) { "gutsrt 1 2" } else { "clone 1 2" }).to_string());
+                for _ in 0..rng.range(1, n as i64 + 1) {
+                    let x = *rng.pick(&["-1", "1", "-2", "2", "0", "-0"]);
+                    c.push(format!("f 1 {}", x));
+                    c.push(format!("f 2 {}", x));
+                    c.push("same 1 2 C20.copy-continues".into());
+                }
+                cases.push(c);
+            }
         }
         // the state re-injected IN PLACE: a filter that has a past of its own gets its state overwritten (through
         // `state_mut`, or by `clone_from`) with a copy of the state of another one — a fresh one, or one elsewhere in
